@@ -136,6 +136,14 @@ def enumerate_cases(tier, shard=0, nshards=1):
                         'scalar-scalar', 'tworanges'):
                 out.append({'k': 'agg-err2', 'fn': fn, 'codes': [c1, c2],
                             'arr': arr})
+    # (c3) an error cell that follows a long run of blank cells in the range
+    for fn in AGGS:
+        if fn == 'SUMPRODUCT':
+            continue
+        for gap in (1, 99, 100, 101, 150, 300):
+            for code in ('#DIV/0!', '#N/A', '#REF!'):
+                out.append({'k': 'agg-gap', 'fn': fn, 'gap': gap,
+                            'code': code})
     # (d)
     for sym in list(BIN) + ['u-']:
         for a in OPERANDS:
@@ -275,6 +283,19 @@ def judge(case):
         return _fn_err(case, res)
     if k == 'agg-err':
         return _agg_err(case, res)
+    if k == 'agg-gap':
+        fn, gap, code = case['fn'], case['gap'], case['code']
+        last = gap + 2
+        cells = {'Sheet1!A1': 5, 'Sheet1!A%d' % last: YIELD[code],
+                 'Sheet1!A%d' % (last + 1): 7}
+        lead = '0.1,' if fn == 'NPV' else ''
+        f = '=%s(%sA1:A%d)' % (fn, lead, last + 1)
+        o = lib.eval_formula(f, cells, addr='Sheet1!ZZ9')[0]
+        res.labels += (fn, 'gap')
+        if o != E(code):
+            res.fail('agg-error-after-blank-run:%s' % (
+                'gap>100' if gap > 100 else 'gap<=100'), E(code), o, f)
+        return res
     if k == 'agg-err2':
         fn, (c1, c2), arr = case['fn'], case['codes'], case['arr']
         lead = '0.1,' if fn == 'NPV' else ''
